@@ -25,7 +25,7 @@ Not judged: latency of the report beyond "before the next packet's DPP start"; `
   a data header that is not followed by its DPP is only generated with a non-framing word after it.
 Known findings on the unchanged tree are classified narrowly (see known_findings.d/C40.json); after the ZLP finding
   (receiver stuck) the rest of that sub-session is unjudged.
-Deviation from DESIGN section 7: cases are long sessions (elaboration cost), so the quick tier has 64 cases x ~64 packets.
+Deviation from DESIGN section 7: cases are long sessions (elaboration cost), so the quick tier has 32 cases x 128 packets.
 """
 import struct
 
@@ -33,8 +33,8 @@ from rv.sim import Bench
 from rv.ref import c35_usb3link as L
 
 PROPERTY = "C40"
-CASES = {"quick": 64, "thorough": 900}
-RULE = ("case = 8 sub-sessions (DUT reset between) x 8 packets: data packets of all lengths mod 4 incl. zero length, ~45% damaged "
+CASES = {"quick": 32, "thorough": 480}
+RULE = ("case = 16 sub-sessions (DUT reset between) x 8 packets: data packets of all lengths mod 4 incl. zero length, ~45% damaged "
         "(CRC-32/payload/header CRC bit flips, aborts, short/long, K-symbol, missing CRC), other traffic between, not-valid words at "
         "random density and directed before each word role; non-trivial = >=1 damaged packet, >=1 not-valid word inside a payload "
         "and before a CRC word; distinct = hash of the complete word script")
@@ -519,7 +519,7 @@ def run_case(rng, tier, res):
     rst = Signal(name="harness_rst")
     top = ResetInserter({"ss": rst})(dut)
     sess = Session(rng, res, tier)
-    sess.build(8, 8)
+    sess.build(16, 8)
     script = sess.script
     b = Bench(top, domain="ss", freq=125e6, max_cycles=len(script) + 50)
     sigs = [dut.sink.valid, dut.sink.data, dut.sink.ctrl, dut.packet_good, dut.packet_bad, dut.source.valid, dut.source.data, rst]
